@@ -669,7 +669,10 @@ func tcpCase(r *Rng, e *netEnv, tg *tcpTargets, out *Out) {
 		parts = append(parts, fmt.Sprintf("closed=%s,%d,%d,%d,pc=%s", o.status, o.data.ClientProxy, o.data.ProxyTarget, o.data.TargetProxy, pc))
 		// how the connection ended, in classes
 		cls := o.closeKind
-		tol := 150 * time.Millisecond
+		// Early is what matters for probe resistance (a close before the deadline tells the prober
+		// something); a close that is reported late only says the machine was busy, so the upper
+		// tolerance is wide and a loaded host does not turn into an alarm.
+		tol := 3 * time.Second
 		switch {
 		case o.status == "ERR_CONNECT" || o.status == "ERR_ADDRESS_INVALID" || o.status == "ERR_ADDRESS_PRIVATE":
 			cls = "quick" // dial errors are communicated at once; FIN or RST depends on unread input
